@@ -92,11 +92,51 @@ def leaf_decoder_safety(case):
         obj = OBJ(PS, "IntSpaces", _space=sref("space"), _max_int=mi, _max_num_spaces=ms)
     else:
         obj = OBJ(PS, "MultiDigit", _base=case.base, _digits=case.digits)
+    if case.cls == "HexInt":
+        # int(s, 16) behind _from_base16: contract "only validated hex digits (1..3 of them) reach it; the value of L
+        # hex digits lies in [0, 16**L)" (a fact about positional notation)
+        import z3 as _z3
+        from pyvc.hostmodels import UF as _UF
+
+        def from16(it, a, k):
+            t = a[0]
+            if not isinstance(t, SStr):
+                raise OutOfSubset("_from_base16 of a non-symbolic text")
+            L = _z3.Length(t.t)
+
+            def hexcode(j):
+                c = _z3.StrToCode(_z3.SubString(t.t, j, 1))
+                return _z3.Or(_z3.And(c >= 48, c <= 57), _z3.And(c >= 97, c <= 102))
+
+            check("only-validated-hex-digits-reach-int(,16)", mk_bool(_z3.And(L >= 1, L <= 3, *[_z3.Implies(L > j, hexcode(j)) for j in range(3)])))
+            v = _UF["int16"](t.t)
+            assume_fact(mk_bool(_z3.And(v >= 0, v < _z3.If(L == 1, 16, _z3.If(L == 2, 256, 4096)))))
+            return SInt(v)
+
+        use_contract(PS + "::_from_base16", from16)
     o = call(REAL(PS, case.cls + ".deserialize"), obj, env, data, idx)
     r = _well_formed(o, data, idx)
     if r is None:
         return
     n, items = r
+    # second clause of C17 at the leaves: whatever a leaf decoder returns lies in the set its own serialize accepts
+    if case.cls == "HexInt":
+        ok = is_list(items) and length(items) == 1
+        check("hexint-yields-one-value", ok)
+        if ok:
+            v = item(items, 0)
+            check("decoded-value-is-re-encodable:0<=v<=4095", And(v >= 0, v <= 4095))
+    if case.cls == "IntSpaces":
+        v0 = item(items, 0)
+        v0 = SInt(v0.t) if isinstance(v0, SRef) else v0
+        check("decoded-number-is-re-encodable:0<=v<=max_int", And(v0 >= 0, v0 <= attr(obj, "_max_int")))
+    if case.cls == "MultiDigit":
+        for j in range(case.digits):
+            d = item(items, j)
+            check("decoded-digit-is-re-encodable:0<=d<base", And(d >= 0, d < case.base))
+    if case.cls == "Dict":
+        v0 = item(items, 0)
+        check("decoded-value-is-one-of-the-dictionary-keys", Or(same(v0, item(attr(obj, "_before"), 0)), same(v0, item(attr(obj, "_before"), 1))))
     if case.cls == "Spaces":
         # ground fact about int(c, 36) for one lower-case alphanumeric character (validated natively
         # for all 36 characters on every run): its value lies in [0, 35]
